@@ -23,8 +23,9 @@ def judge_repeat(req, impl, model, spec):
             "what": "" if ok else "the same file and image gave different exit status or standard output on different runs: " + impl}
 
 
-THEOREM_MODULES = ["Hcl.Theorems.C12", "Hcl.Theorems.C12Reorder", "Hcl.Theorems.C12Rename", "Hcl.Tie.PinsBuild", "Hcl.Theorems.C12Render"]
-THEOREMS = {"Hcl.Theorems.C12Render": ["C12_batch_text_blocks", "C12_batch_text_length"],
+THEOREM_MODULES = ["Hcl.Theorems.C12", "Hcl.Theorems.C12Reorder", "Hcl.Theorems.C12Rename", "Hcl.Tie.PinsBuild", "Hcl.Theorems.C12Render", "Hcl.Tie.PinsErrors"]
+THEOREMS = {"Hcl.Tie.PinsErrors": ["Tie.PinsErrors.pinFindCloseNames", "Tie.PinsErrors.pinFormatForContents"],
+            "Hcl.Theorems.C12Render": ["C12_batch_text_blocks", "C12_batch_text_length"],
             "Hcl.Theorems.C12Rename": ["C12_rename_verdict", "C12_rename_exact", "C12_rename_cycle", "C12_rename_run", "Program_new_rename_report", "topologicalSort_rename"],
             "Hcl.Theorems.C12Reorder": ["C12_reorder_verdict", "C12_reorder_program", "C12_reorder_cycle", "C12_reorder_run", "Program_new_perm_runN", "Program_new_perm_init", "Reorder.processBanks_perm", "Reorder.step1Of_perm"],
             "Hcl.Theorems.C12": ["C12_verdict_order_independent", "C12_rejected_on_every_run", "C12_diagnostics_order_independent",
